@@ -296,10 +296,37 @@ class _CanonicalBranches(ast.NodeTransformer):
                 break
         return out
 
+    @staticmethod
+    def _unroll_literal_loops(stmts):
+        """`for x in ("a", "b"): BODY` (a short literal tuple / list of constants, x only read, no break / continue / else)
+        is BODY with x = "a" followed by BODY with x = "b"."""
+        out = []
+        for st in stmts:
+            if isinstance(st, ast.For) and not st.orelse and isinstance(st.target, ast.Name) \
+                    and isinstance(st.iter, (ast.Tuple, ast.List)) and 1 <= len(st.iter.elts) <= 4 \
+                    and all(isinstance(e, ast.Constant) for e in st.iter.elts):
+                name = st.target.id
+                body_mod = ast.Module(body=st.body, type_ignores=[])
+                bad = any(isinstance(n, (ast.Break, ast.Continue, ast.FunctionDef, ast.AsyncFunctionDef, ast.Lambda, ast.ClassDef))
+                          or (isinstance(n, ast.Name) and n.id == name and not isinstance(n.ctx, ast.Load))
+                          for n in ast.walk(body_mod))
+                if not bad:
+                    for e in st.iter.elts:
+                        class _Sub(ast.NodeTransformer):
+                            def visit_Name(self, n, _e=e):
+                                if n.id == name:
+                                    return ast.copy_location(ast.Constant(value=_e.value), n)
+                                return n
+                        for b in copy.deepcopy(st.body):
+                            out.append(_Sub().visit(b))
+                    continue
+            out.append(st)
+        return out
+
     def _flatten(self, stmts, fn_level=False):
         out = []
         i = 0
-        stmts = self._accumulate_loops([self._loop_guard(x) for x in stmts])
+        stmts = self._accumulate_loops([self._loop_guard(x) for x in self._unroll_literal_loops(stmts)])
         while i < len(stmts):
             st = stmts[i]
             rest = stmts[i + 1:]
@@ -627,6 +654,12 @@ class Repo:
                     target, recv = self._resolve_procedure(fi, st.value)
                     if target is not None:
                         rep = self._procedure_body(target, st.value, recv, counter)
+                elif isinstance(st, ast.Assign) and isinstance(st.value, ast.Call):
+                    # `a, b = helper(x)` where the helper has statements of its own (guards, try / except): its body is
+                    # spliced in with every `return E` (all in tail position) turned into `a, b = E`
+                    target, recv = self._resolve_procedure(fi, st.value)
+                    if target is not None and not self._single_return_value(target):
+                        rep = self._procedure_body(target, st.value, recv, counter, assign_to=st.targets)
                 if rep is not None:
                     self.inlined.append((fi.qual, target.qual))
                     out.extend(rep)
@@ -641,7 +674,62 @@ class Repo:
                 changed = True
         return changed
 
-    def _procedure_body(self, target, call, recv, counter):
+    @staticmethod
+    def _single_return_value(target):
+        """the helper is `<assignments>; return E` with no other exit: its value is inlined at term level instead"""
+        body = _strip_doc(target.node.body)
+        rets = [n for n in ast.walk(ast.Module(body=body, type_ignores=[])) if isinstance(n, ast.Return)]
+        raises = [n for n in ast.walk(ast.Module(body=body, type_ignores=[])) if isinstance(n, (ast.Raise, ast.Try))]
+        return len(rets) == 1 and body and body[-1] is rets[0] and not raises
+
+    def _tail_returns_to_assign(self, stmts, targets):
+        """every path through stmts ends in `return E` (-> `targets = E`) or `raise`; None otherwise"""
+        if not stmts:
+            return None
+        head, last = stmts[:-1], stmts[-1]
+        if any(isinstance(n, ast.Return) for x in head for n in ast.walk(x)):
+            return None
+        if isinstance(last, ast.Return):
+            if last.value is None:
+                return None
+            asg = ast.Assign(targets=copy.deepcopy(targets), value=last.value)
+            for t_ in asg.targets:
+                for n_ in ast.walk(t_):
+                    n_._caller_name = True      # names of the caller: not renamed with the helper's locals
+            ast.copy_location(asg, last)
+            return head + [asg]
+        if isinstance(last, ast.Raise):
+            return stmts
+        if isinstance(last, ast.If):
+            b = self._tail_returns_to_assign(last.body, targets)
+            o = self._tail_returns_to_assign(last.orelse, targets) if last.orelse else None
+            if b is None or o is None:
+                return None
+            last.body, last.orelse = b, o
+            return head + [last]
+        if isinstance(last, ast.Try) and not last.finalbody:
+            b = self._tail_returns_to_assign(last.orelse if last.orelse else last.body, targets)
+            if b is None or (last.orelse and any(isinstance(n, ast.Return) for x in last.body for n in ast.walk(x))):
+                return None
+            if last.orelse:
+                last.orelse = b
+            else:
+                last.body = b
+            for h in last.handlers:
+                hb = self._tail_returns_to_assign(h.body, targets)
+                if hb is None:
+                    return None
+                h.body = hb
+            return head + [last]
+        if isinstance(last, ast.With):
+            b = self._tail_returns_to_assign(last.body, targets)
+            if b is None:
+                return None
+            last.body = b
+            return head + [last]
+        return None
+
+    def _procedure_body(self, target, call, recv, counter, assign_to=None):
         fn = target.node
         a = fn.args
         if a.vararg or a.kwarg or a.posonlyargs or any(isinstance(x, ast.Starred) for x in call.args) \
@@ -651,7 +739,12 @@ class Repo:
         for n in ast.walk(ast.Module(body=body, type_ignores=[])):
             if isinstance(n, (ast.Yield, ast.YieldFrom, ast.Global, ast.Nonlocal)):
                 return None
-            if isinstance(n, ast.Return) and n.value is not None and not (isinstance(n.value, ast.Constant) and n.value.value is None):
+            if assign_to is None and isinstance(n, ast.Return) and n.value is not None and \
+                    not (isinstance(n.value, ast.Constant) and n.value.value is None):
+                return None
+        if assign_to is not None:
+            body = self._tail_returns_to_assign(body, assign_to)
+            if body is None:
                 return None
         names = [x.arg for x in a.args]
         if recv is not None:
@@ -677,18 +770,19 @@ class Repo:
                 if n_ not in defaults:
                     return None
                 bound[n_] = defaults[n_]
-        body = self._kill_returns(body)
-        if body is None:
-            return None
+        if assign_to is None:
+            body = self._kill_returns(body)
+            if body is None:
+                return None
         counter[0] += 1
         prefix = f"_inl{counter[0]}_"
         local = set(allp)
         for n in ast.walk(ast.Module(body=body, type_ignores=[])):
-            if isinstance(n, ast.Name) and isinstance(n.ctx, (ast.Store, ast.Del)):
+            if isinstance(n, ast.Name) and isinstance(n.ctx, (ast.Store, ast.Del)) and not getattr(n, "_caller_name", False):
                 local.add(n.id)
         ren = {n_: prefix + n_ for n_ in local}
         for n in ast.walk(ast.Module(body=body, type_ignores=[])):
-            if isinstance(n, ast.Name):
+            if isinstance(n, ast.Name) and not getattr(n, "_caller_name", False):
                 if n.id in ren:
                     n.id = ren[n.id]
                 elif selfname is not None and n.id == selfname and isinstance(recv, ast.Name):
